@@ -151,16 +151,30 @@ impl Scripted {
         cx.floor = floor;
         // model: the adapter's own guards are released after we return (closed by `drive`)
         let i1 = cx_now(cx);
+        let panic_now = end == PollEnd::Panic;
+        // for the model a call that panics is a call that did not complete anything
+        let end = if panic_now { PollEnd::Pending } else { end };
         {
             let mut w = cx.case.w();
             let p = &mut w.h.adapters[a].polls[pi];
             p.end = end.clone();
             p.i0 = i0;
             p.i1 = i1;
+            p.inner_panic = panic_now;
+            if panic_now {
+                w.h.label("inner_object_panicked_in_call");
+            }
+        }
+        if panic_now {
+            // no panic hook, no message: unwinds through the adapter's frame into `drive`
+            std::panic::resume_unwind(Box::new(ScriptedPanic));
         }
         end
     }
 }
+
+/// payload of the deliberate panics of scripted inner objects
+pub struct ScriptedPanic;
 
 pub struct ScriptedFuture(pub Scripted);
 impl Future for ScriptedFuture {
@@ -168,7 +182,7 @@ impl Future for ScriptedFuture {
     fn poll(mut self: Pin<&mut Self>, cx: &mut Context<'_>) -> Poll<u32> {
         self.0.waker = Some(cx.waker().clone());
         match self.0.step() {
-            PollEnd::Pending => Poll::Pending,
+            PollEnd::Pending | PollEnd::Panic => Poll::Pending,
             _ => Poll::Ready(7),
         }
     }
@@ -180,7 +194,7 @@ impl Stream for ScriptedStream {
     fn poll_next(mut self: Pin<&mut Self>, cx: &mut Context<'_>) -> Poll<Option<u32>> {
         self.0.waker = Some(cx.waker().clone());
         match self.0.step() {
-            PollEnd::Pending => Poll::Pending,
+            PollEnd::Pending | PollEnd::Panic => Poll::Pending,
             PollEnd::Alt => Poll::Ready(Some(1)),
             PollEnd::Ready => Poll::Ready(None),
         }
@@ -196,7 +210,7 @@ impl Stream for ScriptedStream {
             match ps.end {
                 PollEnd::Alt => n += 1,
                 PollEnd::Ready => break,
-                PollEnd::Pending => {}
+                PollEnd::Pending | PollEnd::Panic => {}
             }
         }
         (n, Some(n))
@@ -207,7 +221,7 @@ pub struct ScriptedSink(pub Scripted);
 impl ScriptedSink {
     fn res(&mut self) -> Poll<Result<(), u8>> {
         match self.0.step() {
-            PollEnd::Pending => Poll::Pending,
+            PollEnd::Pending | PollEnd::Panic => Poll::Pending,
             PollEnd::Alt => Poll::Ready(Err(1)),
             PollEnd::Ready => Poll::Ready(Ok(())),
         }
@@ -242,7 +256,7 @@ impl Stream for ScriptedDuplex {
     fn poll_next(mut self: Pin<&mut Self>, cx: &mut Context<'_>) -> Poll<Option<u32>> {
         self.0.waker = Some(cx.waker().clone());
         match self.0.step() {
-            PollEnd::Pending => Poll::Pending,
+            PollEnd::Pending | PollEnd::Panic => Poll::Pending,
             PollEnd::Alt => Poll::Ready(Some(1)),
             PollEnd::Ready => Poll::Ready(None),
         }
@@ -251,7 +265,7 @@ impl Stream for ScriptedDuplex {
 impl ScriptedDuplex {
     fn res(&mut self) -> Poll<Result<(), u8>> {
         match self.0.step() {
-            PollEnd::Pending => Poll::Pending,
+            PollEnd::Pending | PollEnd::Panic => Poll::Pending,
             PollEnd::Alt => Poll::Ready(Err(1)),
             PollEnd::Ready => Poll::Ready(Ok(())),
         }
@@ -588,7 +602,9 @@ pub fn drive(cx: &mut VtCtx, a_sel: u16, entry: Entry, nested: bool) {
     };
     // futures must not be polled after completion
     let is_fut = matches!(kind, AdapterKind::InSpan | AdapterKind::EnterOnPoll | AdapterKind::InSpanEnterOnPoll | AdapterKind::TracedBoxed);
-    if is_fut && done {
+    let poisoned = cx.case.w().h.adapters[a].polls.iter().any(|p| p.inner_panic);
+    if (is_fut && done) || poisoned {
+        // an object that panicked in a call is not called again (it is dropped later)
         cx.case.w().h.skipped_ops += 1;
         return;
     }
@@ -633,6 +649,7 @@ pub fn drive(cx: &mut VtCtx, a_sel: u16, entry: Entry, nested: bool) {
             finishing: false,
             inside_clp: vec![],
             inside_panicked: false,
+            inner_panic: false,
             scope: None,
             outer_scope: None,
             eop_local: None,
@@ -711,6 +728,7 @@ pub fn drive(cx: &mut VtCtx, a_sel: u16, entry: Entry, nested: bool) {
     let vt = cx.id;
     let finished_now = match res {
         Ok(f) => f,
+        Err(p) if p.is::<ScriptedPanic>() => false,
         Err(p) => {
             let msg = if let Some(s) = p.downcast_ref::<&str>() {
                 s.to_string()
